@@ -18,11 +18,14 @@ use std::sync::{atomic::{AtomicU32, Ordering::SeqCst}, Arc, Mutex};
 use std::task::Poll;
 
 #[derive(Clone, Debug)]
-pub struct Cfg { pub m: usize, pub entries: Vec<Entry>, pub per_prod: u32, pub listeners: Vec<(Sub, u32)>, pub prefill: u32 }
+pub struct Cfg { pub m: usize, pub entries: Vec<Entry>, pub per_prod: u32, pub listeners: Vec<(Sub, u32)>, pub prefill: u32,
+    /// subscriptions made, (partly) consumed and dropped one after the other before the run: the run's listeners get recycled stream ids and subscriber slots
+    /// (kind of subscription, consume everything that is there?)
+    pub prehistory: Vec<(Sub, bool)> }
 impl Cfg {
     pub fn json(&self) -> J {
         J::obj().with("MAX_STREAMS", J::i(self.m as i64)).with("publishers", J::Arr(self.entries.iter().map(|e| J::s(e.name())).collect())).with("events_per_publisher", J::i(self.per_prod as i64))
-            .with("events_before_anybody_subscribes", J::i(self.prefill as i64)).with("listeners(subscription, delay_steps)", J::s(format!("{:?}", self.listeners)))
+            .with("events_before_anybody_subscribes", J::i(self.prefill as i64)).with("listeners(subscription, delay_steps)", J::s(format!("{:?}", self.listeners))).with("earlier_listeners_dropped_before_the_run(subscription, consumed_everything)", J::s(format!("{:?}", self.prehistory)))
     }
 }
 
@@ -44,16 +47,29 @@ pub fn draw_cfg(rng: &mut Rng, lane: Lane) -> Cfg {
         listeners.push((how, rng.below(if lane == Lane::Ser { 60 } else { 2000 }) as u32));
         if rng.chance(1, 3) { break }
     }
-    Cfg { m, entries, per_prod, listeners, prefill: rng.below(4) as u32 }
+    let prehistory: Vec<(Sub, bool)> = if rng.chance(1, 2) { Vec::new() } else { (0..1 + rng.below(m as u64 + 2)).map(|_| (*rng.pick(&[Sub::New, Sub::Joined, Sub::Split, Sub::Split]), rng.chance(2, 3))).collect() };
+    Cfg { m, entries, per_prod, listeners, prefill: rng.below(4) as u32, prehistory }
 }
 
 #[derive(Default)]
-struct LLog { old: Mutex<Vec<(u64, bool, usize)>>, new: Mutex<Vec<(u64, bool, usize)>>, old_ended: AtomicU32, held: Mutex<Vec<chan::Item>>, subscribed: AtomicU32 }
+struct LLog { old: Mutex<Vec<(u64, bool, usize)>>, new: Mutex<Vec<(u64, bool, usize)>>, old_ended: AtomicU32, held: Mutex<Vec<chan::Item>>, subscribed: AtomicU32,
+    /// stamp taken right after the subscription call returned
+    sub_stamp: std::sync::atomic::AtomicU64,
+    /// the stream of new events answered end-of-stream (nobody ever tells it to end)
+    new_ended: AtomicU32 }
 
 pub fn one_run(cfg: &Cfg, rc: &RunCfg, acc: &mut Acc) -> (Option<J>, u64, bool) {
     let ch = chan::make(Kind::MultiMmap, 0, cfg.m, false).expect("instantiation");
     let mut accepted: Vec<u64> = Vec::new();
     for i in 0..cfg.prefill as u64 { if crate::drive::send_via(&*ch, Entry::Send, 0x70_0000 + i) == chan::SendRes::Ok { accepted.push(0x70_0000 + i) } }
+    // earlier listeners: subscribed, (partly) consumed and dropped, one after the other -- what they leave behind (stream ids, subscriber slots) is recycled by the run's listeners
+    if !cfg.prehistory.is_empty() { acc.count("runs_whose_listeners_recycle_the_ids_of_earlier_dropped_ones", 1) }
+    for (how, all) in &cfg.prehistory {
+        let w = chan::noop_waker();
+        let mut ss = ch.subscribe(*how);
+        for s in ss.iter_mut() { let mut k = 0; while let Poll::Ready(Some(it)) = s.poll(&w) { drop(it); k += 1; if !*all || k > 64 { break } } }
+        drop(ss);
+    }
     let plogs: Vec<Arc<ProdLog>> = cfg.entries.iter().map(|_| Arc::new(ProdLog::default())).collect();
     let llogs: Vec<Arc<LLog>> = cfg.listeners.iter().map(|_| Arc::new(LLog::default())).collect();
     let done = Arc::new(AtomicU32::new(0));
@@ -64,6 +80,7 @@ pub fn one_run(cfg: &Cfg, rc: &RunCfg, acc: &mut Acc) -> (Option<J>, u64, bool) 
         bodies.push(Box::new(move || {
             for _ in 0..delay { if lane == Lane::Ser { sched::point() } else { std::hint::spin_loop() } }
             let mut ss = ch.subscribe(how);
+            l.sub_stamp.store(crate::drive::stamp(), SeqCst);
             l.subscribed.store(1, SeqCst);
             sched::op_done();
             let w = chan::noop_waker();
@@ -84,7 +101,7 @@ pub fn one_run(cfg: &Cfg, rc: &RunCfg, acc: &mut Acc) -> (Option<J>, u64, bool) 
                 }
                 match new.poll(&w) {
                     Poll::Ready(Some(it)) => { l.new.lock().unwrap().push((it.id, it.valid, it.addr)); l.held.lock().unwrap().push(it); empties = 0; sched::op_done() }
-                    Poll::Ready(None) => break,
+                    Poll::Ready(None) => { l.new_ended.store(1, SeqCst); break }
                     Poll::Pending => { if d.load(SeqCst) == nprod && old.is_none() { empties += 1; if empties >= 2 { break } } sched::spin() }
                 }
                 if turn > 50_000_000 { break }
@@ -134,6 +151,15 @@ pub fn one_run(cfg: &Cfg, rc: &RunCfg, acc: &mut Acc) -> (Option<J>, u64, bool) 
                     if old.len() > cfg.prefill as usize && old.len() < canon_ids.len() { split_during_publish += 1 }
                 }
                 Sub::New => { let k = canon_ids.len().saturating_sub(seq.len()); if seq.len() > canon_ids.len() || canon_ids[k..] != seq[..] { probs.push(("new_not_a_suffix".into(), format!("listener {li} (new events only) yielded {:?}, which is not a gap-free suffix of the log's order {:?}", &seq[..seq.len().min(24)], &canon_ids[..canon_ids.len().min(24)]))) } }
+            }
+            // nobody told the stream of new events to end; and it polled until the publishers were done and nothing was left: whatever was sent after the
+            // subscription call had returned was sent during its lifetime
+            if l.new_ended.load(SeqCst) != 0 { probs.push(("new_stream_ended_by_itself".into(), format!("listener {li} ({how:?}): the stream for new events answered end-of-stream although nobody told it to end (it yielded {} event(s))", new.len()))) }
+            else {
+                let t_sub = l.sub_stamp.load(SeqCst);
+                let got: std::collections::HashSet<u64> = seq.iter().copied().collect();
+                let missed: Vec<u64> = plogs.iter().flat_map(|pl| pl.calls.lock().unwrap().iter().filter(|c| c.3 && c.1 > t_sub && !got.contains(&c.0)).map(|c| c.0).collect::<Vec<_>>()).collect();
+                if !missed.is_empty() { probs.push(("missed_event_sent_after_subscription".into(), format!("listener {li} ({how:?}) never yielded {:?}, sent after its subscription call had returned", &missed[..missed.len().min(8)]))) }
             }
             // the references handed out still point at the same, unchanged events
             for it in l.held.lock().unwrap().iter() { let (id2, v2) = it.reread(); if id2 != it.id || !v2 { probs.push(("reference_changed".into(), format!("a reference handed out for event {} now reads {id2:#x} (valid={v2})", it.id))); break } }
